@@ -682,6 +682,11 @@ P = {
         "Both are now CROSS-CHECKED at run time on every explored schedule (stream sched): the events the instrumented code "
         "really executes must replay as an execution of the skeleton semantics (theorem C07_explored_schedule_is_model_execution: "
         "what the replay accepts is such an execution) - on the explored plans and schedules only, not for all inputs",
+        "extractor, instrumenter and drivers identify the guarded state STRUCTURALLY (mutexes by their type, data leaves by "
+        "their position; structs of the package nested by value - embedded or named - are flattened depth first, their methods "
+        "inlined / instrumented with the receiver standing for that part of the state; the drivers reach the tree pointer, the rule "
+        "list and the default rule through accessors generated by type): field, helper and lock names are free, the type name "
+        "`repository`, the constructor `newRepository` and the methods of rule.Repository are not",
         "stream sched: harness/tools/instr (go/ast, written independently of the extractor) decides syntactically what is logged: "
         "r.f in a method of the type (read, assignment, op-assignment), method calls on r.index / on locals and parameters that "
         "syntactically denote such a tree; an access it does not see is not checked (the replay fails if the skeleton has an event "
